@@ -67,7 +67,15 @@ pub fn gzip_wrap(r: &mut Rng, stream: &[u8], plain: &[u8], subset: u8, hostile_f
     };
     if subset & 1 != 0 {
         let n = *r.pick(&[0usize, 1, 4, 20, 300, 70000]);
-        let n = if n == 70000 { 256 + r.usize_below(2000) } else { n };
+        let n = if n == 70000 {
+            if r.chance(1, 5) {
+                65535 // the largest FEXTRA the 16-bit length field can announce
+            } else {
+                256 + r.usize_below(2000)
+            }
+        } else {
+            n
+        };
         let f = field(r, n, false);
         v.extend_from_slice(&(f.len() as u16).to_le_bytes());
         v.extend_from_slice(&f);
@@ -359,8 +367,9 @@ pub fn wrap_stream(r: &mut Rng, s: &Stream, w: u8, hostile_fields: bool) -> (Vec
         2 => {
             let o = ZipOpts {
                 size_mode: *r.pick(&[0u8, 0, 0, 1, 2, 3]),
-                name_len: *r.pick(&[0usize, 1, 8, 30, 300]),
-                extra_len: *r.pick(&[0usize, 0, 4, 28, 300]),
+                // 65535: the largest value of the 16-bit length fields
+                name_len: if r.chance(1, 30) { 65535 } else { *r.pick(&[0usize, 1, 8, 30, 300]) },
+                extra_len: if r.chance(1, 30) { 65535 } else { *r.pick(&[0usize, 0, 4, 28, 300]) },
                 data_descriptor: r.chance(1, 3),
                 central_dir: r.chance(1, 2),
                 hostile_fields,
@@ -391,7 +400,8 @@ pub fn wrap_stream(r: &mut Rng, s: &Stream, w: u8, hostile_fields: bool) -> (Vec
                 z[0] = *r.pick(&[0x78u8, 0x79, 0x00, 0x08, 0xff]);
                 z[1] = r.byte();
             }
-            let n_chunks = *r.pick(&[1usize, 1, 2, 3, 8]);
+            // rarely more IDAT chunks than an 8-bit counter holds
+            let n_chunks = if r.chance(1, 40) { 256 + r.usize_below(150) } else { *r.pick(&[1usize, 1, 2, 3, 8]) };
             let cuts = random_cuts(r, z.len(), n_chunks, false);
             let envelope = r.chance(3, 4);
             let v = png_wrap(r, &z, &cuts, envelope, &[]);
@@ -410,12 +420,18 @@ pub struct GenFile {
 
 /// a file with 0..6 embedded streams separated by junk, then optionally mutated
 pub fn assemble(r: &mut Rng, max_plain: usize, max_streams: usize) -> GenFile {
-    let n = match r.below(10) {
+    let mut n = match r.below(10) {
         0 => 0,
         1..=5 => 1,
         6..=7 => 2,
         _ => 1 + r.usize_below(max_streams.max(1)),
     };
+    // rarely more embedded streams than an 8-bit counter holds (all of them tiny)
+    let crowd = max_streams >= 3 && r.chance(1, 60);
+    let max_plain = if crowd { 300 } else { max_plain };
+    if crowd {
+        n = 256 + r.usize_below(60);
+    }
     let hostile = r.chance(1, 2);
     let mut bytes = vec![];
     let mut recipe = format!("junk={} ", if hostile { "hostile" } else { "clean" });
@@ -471,7 +487,7 @@ pub fn assemble(r: &mut Rng, max_plain: usize, max_streams: usize) -> GenFile {
         bytes.extend(wb);
         let gap = *r.pick(&[0usize, 0, 1, 9, 100, 2000]);
         let mut gap = r.usize_below(gap + 1);
-        if r.chance(1, 12) {
+        if !crowd && r.chance(1, 12) {
             // the literal run behind a stream (trailer + gap + next header) an exact multiple of 64 KiB or next to one
             gap = (1 + r.usize_below(2)) * 65536 + 2 - r.usize_below(16);
             recipe.push_str(&format!("gap={} ", gap));
